@@ -251,6 +251,39 @@ def _eval_objective(fun, x):
         return "raised-" + errname(e)
 
 
+def _eval_jac(jac, x):
+    try:
+        J = np.asarray(jac(np.array(x, dtype=np.float64)), dtype=np.float64)
+        return [[float(v) for v in row] for row in J] if J.ndim == 2 else "raised-shape"
+    except Exception as e:
+        return "raised-" + errname(e)
+
+
+def matlist(J):
+    return J if isinstance(J, str) else "[" + ",".join(ratlist(row) for row in J) + "]"
+
+
+def jacobian_full_probe(fit):
+    """The full Jacobian of the fit at its current values: the one `fit.fit()` hands to its optimiser with every
+    parameter freed (`public_jacobian`) and the private `Fit._calculate_jacobian()` while it exists; must be the same."""
+    pub = public_jacobian(fit)
+    priv = getattr(fit, "_calculate_jacobian", None)
+    prv = None
+    if priv is not None and getattr(fit, "has_jacobian", False):
+        try:
+            prv = np.asarray(priv(), dtype=np.float64)
+        except TypeError as e:
+            if e.__traceback__ is None or e.__traceback__.tb_next is not None:
+                raise
+            prv = None
+    RESID["jac:public" + ("" if pub is not None else ":unavailable")] += 1
+    RESID["jac:private" + ("" if prv is not None else ":unavailable")] += 1
+    if pub is not None and prv is not None and (pub.shape != prv.shape or pub.tobytes() != prv.tobytes()) and pub.size:
+        return f"the-fit's-own-jacobian-{matlist(prv.tolist())}-is-not-what-fit()-hands-to-its-optimiser-{matlist(pub.tolist())}"
+    J = pub if pub is not None else prv
+    return "?" if J is None else matlist([[float(v) for v in row] for row in J])
+
+
 class Recorder:
     """records scipy.optimize.least_squares (the optimiser is a parameter of the model, not modelled)"""
 
@@ -289,6 +322,8 @@ class Recorder:
                 # what the fit's objective answers at the start point (the closure of Fit._fit: parameter_vector[fitted]
                 # = params; Fit._calculate_residual(parameter_vector)) - evaluated before the optimiser starts
                 entry["r0"] = _eval_objective(fun, x0)
+                jac = kw.get("jac")
+                entry["j0"] = _eval_jac(jac, x0) if callable(jac) else "2p"  # the `jac` closure of Fit._fit at the start
             try:
                 r = rec.orig(fun, x0, *a, **kw)
             except Exception as e:
@@ -442,7 +477,9 @@ def residual_probe(fit):
     return "?" if r is None else ratlist(r)
 
 
-RESID = {"probe:public": 0, "probe:public:unavailable": 0, "probe:private": 0, "probe:private:gone": 0,
+RESID = {"jac:public": 0, "jac:public:unavailable": 0, "jac:private": 0, "jac:private:unavailable": 0,
+         "jac:entries_compared_with_model": 0, "jac:matrices_compared_with_model": 0, "jac:two-point(no analytic Jacobian)": 0,
+         "oracle:jac_rows_recomputed": 0, "probe:public": 0, "probe:public:unavailable": 0, "probe:private": 0, "probe:private:gone": 0,
          "entries_compared_with_model": 0, "vectors_compared_with_model": 0, "vectors_all_zero(noise-free at the table values)": 0,
          "oracle:entries_recomputed": 0, "oracle:descent_checked": 0, "oracle:refit_from_zero_residual": 0,
          "non_finite_entries_skipped": 0}
@@ -555,6 +592,7 @@ def run_script(case):
     fit = lk.FdFit(*models)
     caller = Caller(case)
     obs = []
+    jcs = []  # Jacobian observations (polynomial toy models only): one per query / fit
     res = []  # residual observations (polynomial toy models only): one per query / fit
     poly = all(sp["kind"] == "poly" for sp in case["models"])
     fits = []
@@ -610,6 +648,7 @@ def run_script(case):
                     res.append("f" + _rl(call["r0"]) + ">" + _rl(call["r1"]))
                 else:
                     res.append("f" + _rl(call["r0"]))
+                jcs.append("f-" if call is None or "j0" not in call else "f" + matlist(call["j0"]))
             if call is None:
                 obs.append("fit:" + (err or "ok-without-optimiser"))
             elif "x" not in call:
@@ -630,6 +669,10 @@ def run_script(case):
                     res.append("q" + residual_probe(fit))
                 except Exception as e:
                     res.append("q-raised:" + errname(e))
+                try:
+                    jcs.append("q" + jacobian_full_probe(fit))
+                except Exception as e:
+                    jcs.append("q-raised:" + errname(e))
         elif a == "jac":
             try:
                 obs.append(jac_probe(fit, models, act["mi"], act["name"], act["sens"]))
@@ -637,7 +680,7 @@ def run_script(case):
                 obs.append("J:" + errname(e))
         else:
             raise ValueError(a)
-    return obs, fits, mtab, (res if poly else None)
+    return obs, fits, mtab, ((res, jcs) if poly else None)
 
 
 def _show_unique(u, inv):
@@ -691,7 +734,7 @@ def impl(case):
         return [pub]
     obs, fits, mtab, res = run_script(case)
     _CACHE[_key(case)] = (fits, mtab)
-    return [";".join(obs)] if res is None else [";".join(obs), ";".join(res)]
+    return [";".join(obs)] if res is None else [";".join(obs), ";".join(res[0]), ";".join(res[1])]
 
 
 def enc_default(d):
@@ -755,7 +798,7 @@ def ops(case):
         elif a == "jac":
             toks += ["J", str(act["mi"]), showstr(act["name"]), ratlist(act["sens"])]
     if all(sp["kind"] == "poly" for sp in case["models"]):
-        return [" ".join(toks), " ".join(["c14.resid"] + toks[1:])]
+        return [" ".join(toks), " ".join(["c14.resid"] + toks[1:]), " ".join(["c14.fjac"] + toks[1:])]
     return [" ".join(toks)]
 
 
@@ -820,6 +863,40 @@ def _resid_obs_agree(io, mo):
     return True
 
 
+def parse_mat(s_):
+    body = s_[1:-1]
+    return [] if body == "" else [parse_ratlist("[" + r + "]") for r in body[1:-1].split("],[")]
+
+
+def _jac_obs_agree(io, mo):
+    if io in ("q?", "f2p"):
+        if io == "f2p":
+            RESID["jac:two-point(no analytic Jacobian)"] += 1
+        return True
+    if io[:1] != mo[:1]:
+        return False
+    if io == "f-" or mo == "f-":
+        return io == mo
+    if not io[1:].startswith("[") or "bad-float" in io:
+        return False
+    a, b = parse_mat(io[1:]), parse_mat(mo[1:])
+    if len(a) != len(b):
+        return False
+    for ra, rb in zip(a, b):
+        if len(ra) != len(rb) or any(abs(x - y) > Fraction(RESID_TOL) * max(1, abs(y)) for x, y in zip(ra, rb)):
+            return False
+        RESID["jac:entries_compared_with_model"] += len(rb)
+    RESID["jac:matrices_compared_with_model"] += 1
+    return True
+
+
+def _jac_agree(ia, ma):
+    if ia == "" and ma == "":
+        return True
+    i, m = ia.split(";"), ma.split(";")
+    return len(i) == len(m) and all(_jac_obs_agree(a, b) for a, b in zip(i, m))
+
+
 def _resid_agree(ia, ma):
     if ia == "" and ma == "":
         return True
@@ -832,6 +909,8 @@ def agree(case, i, ia, ma):
         return ia == ma
     if i == 1:
         return any(_resid_agree(ia, alt) for alt in ma.split(" || "))
+    if i == 2:
+        return any(_jac_agree(ia, alt) for alt in ma.split(" || "))
     alts = ma.split(" || ")
     if len(alts) == 1:
         if _ans_agree(ia, alts[0]):
@@ -937,10 +1016,47 @@ def _oracle_resid(case, ia):
     residual is exactly zero (noise-free data at the optimum) ends with a residual that is still (numerically) zero."""
     obs = ia[0].split(";")
     res = ia[1].split(";") if ia[1] else []
+    jcs = ia[2].split(";") if len(ia) > 2 and ia[2] else []
+    pn = [model_param_names(sp) for sp in case["models"]]
+    targets = [dict() for _ in case["models"]]  # per model: dataset -> what its model parameters are mapped to
     k = 0
     for act, o in zip(case["actions"], obs):
+        if act["a"] == "add" and o == "add:ok":
+            ov = act.get("ov", {})
+            targets[act["mi"]][act["name"]] = [ov.get(p_, {"n": p_}) for p_ in pn[act["mi"]]]
         if act["a"] not in ("query", "fit"):
             continue
+        # a wrong value on an input with a condition-string collision (O-C14-A, known finding) is reported under that class
+        coll = False
+        for tm in targets:
+            tl = [[t["n"] if "n" in t else t["c"] for t in tg] for tg in tm.values()]
+            cs = [cond_string(t) for t in tl]
+            coll = coll or any(cs[i_] == cs[j_] and [type(v) for v in tl[i_]] + tl[i_] != [type(v) for v in tl[j_]] + tl[j_] for i_ in range(len(tl)) for j_ in range(i_))
+        if act["a"] == "query" and k < len(jcs) and jcs[k].startswith("q[") and o.startswith("T[") and "bad-" not in jcs[k]:
+            # (d) the Jacobian of the fit: the row of a sample x of a dataset has, in the column of the global parameter
+            # n, minus the sum of x^k over ALL model parameters k the dataset maps to n (chain rule: one term per path),
+            # zero in the column of a parameter the dataset does not use - compared as a multiset of rows
+            names = [r_[0] for r_ in parse_table(o.split(" L", 1)[0])]
+            got = sorted(parse_mat(jcs[k][1:]))
+            exp = []
+            for mi_, hm in enumerate(parse_held(o)):
+                for name, (xb, _) in hm.items():
+                    tg = targets[mi_].get(name)
+                    if tg is None:
+                        exp = None
+                        break
+                    for b_ in xb:
+                        xv = _bits_to_frac(b_)
+                        exp.append([-sum((xv**j for j, t in enumerate(tg) if t.get("n") == n_), Fraction(0)) for n_ in names])
+                if exp is None:
+                    break
+            if exp is not None:
+                exp.sort()
+                RESID["oracle:jac_rows_recomputed"] += len(exp)
+                if got != exp:
+                    bad = next((g_ for g_, e_ in zip(got, exp) if g_ != e_), None)
+                    return (("sees[condition-string-collision]: " if coll else "") + f"jacobian-matrix: d(residual)/d(parameters {names}) handed to the optimiser is not the chain-rule sum over the "
+                            f"parameters each dataset maps to each name: {len(got)} rows, expected {len(exp)}; first differing row {[str(v) for v in (bad or [])]}")
         if k >= len(res):
             return f"residual: no residual observation for action {act['a']}"
         r = res[k]
@@ -973,7 +1089,7 @@ def _oracle_resid(case, ia):
             exp.sort()
             RESID["oracle:entries_recomputed"] += len(exp)
             if len(exp) != len(got) or any(abs(a - b) > Fraction(RESID_TOL) * scale for a, b in zip(got, exp)):
-                return (f"residual: the fit evaluates the residual {[float(v) for v in got][:12]} (sorted) but the samples the datasets hold and the "
+                return (("sees[condition-string-collision]: " if coll else "") + f"residual: the fit evaluates the residual {[float(v) for v in got][:12]} (sorted) but the samples the datasets hold and the "
                         f"parameters each dataset is mapped to (by name) give {[float(v) for v in exp][:12]}")
         else:
             if r == "f-" or ">" not in r or "bad-" in r or "raised" in r:
